@@ -5,6 +5,7 @@ import NrDaemon.Model.Regex
 import NrDaemon.Lemmas.Regex
 import NrDaemon.Model.Proc
 import NrDaemon.Gen.Rules
+import NrDaemon.Lemmas.Proc
 /-!
   C07 — metric aggregation is order-independent and rename rules are applied faithfully.
 
@@ -432,3 +433,39 @@ theorem C07_rules_source_tied :
     Gen.Rules.ambiguous = "regexp.MustCompile(`\\\\\\\\([0-9]+)`)" ∧
     Gen.Rules.backref = "regexp.MustCompile(`\\\\([0-9]+)`)" ∧
     Gen.Rules.backrefReplacement = "\"$${${1}}\"" := by decide
+
+/-! ### Carry-over and rename rules (processor level) -/
+
+/-- **C07 (a carried-over metric table goes back un-renamed).**  When the delivery of a metric payload fails, what is merged
+into the next harvest is the table the rules were applied TO, not the table they produced: the rules meet every
+contribution exactly once, at the harvest that finally sends it, so the reported name does not depend on carry-overs
+(the defect repaired by `fix:` a3f8a47 was exactly the other choice). -/
+theorem C07_handback_is_unrenamed (h : HarvestM) (sent orig : MTable) (touched : Bool) :
+    (failedHarvest h (.metrics sent touched orig) .metrics).metrics =
+      MTable.mergeFailed Gen.Limits.FailedMetricAttemptsLimit h.metrics orig := rfl
+
+theorem txnPayloads_cat (split : Bool) (r : Res) : ∀ x ∈ txnPayloads split r, x.1 = Cat.txnEv := by
+  intro x hx
+  unfold txnPayloads at hx
+  split at hx
+  · simp only [List.mem_cons, List.mem_nil_iff, or_false] at hx
+    rcases hx with h | h <;> rw [h]
+  · simp only [List.mem_singleton] at hx
+    rw [hx]
+
+/-- the payload of a harvest is the rules' image of the harvest's own table, and that table travels with it -/
+theorem C07_payload_carries_its_source (s : PState) (runId : String) (run : RunM) (app : AppM) (cfg : RunCfg) (a : HArgs) :
+    ∀ r ∈ (harvestAllPart s runId run app cfg a).2, r.cat = Cat.metrics →
+      r.payload = .metrics (applyRulesM (createFinalMetrics run.h).metrics a.rules) (createFinalMetrics run.h).touched
+                           (createFinalMetrics run.h).metrics := by
+  intro r hr hc
+  unfold harvestAllPart at hr
+  simp only [] at hr
+  have hm := (considerMany_from _ _ _ r hr).2
+  simp only [List.mem_append, List.mem_cons, Prod.mk.injEq, List.mem_nil_iff, or_false] at hm
+  rw [hc] at hm
+  rcases hm with ((h | h | h | h | h | h) | h) | h | h | h
+  · exact h.2
+  all_goals first
+    | (exact absurd h.1 (by decide))
+    | (have := txnPayloads_cat _ _ _ h; simp at this)
